@@ -268,6 +268,19 @@ def campaign(c):
         else:
             expect(c, 'dns::host', False, 'dns::host failed: %s' % res[0][:80], rep)
         c.case(('host', i), dict(kind='dns::host', answers=len(ips)) if i % 8 == 3 else None)
+    # DNS RR: every named class (and 0 / 254 / 255) x TTL 0, 1, default x data of 0, 1 and 4 bytes - RDLENGTH is the length of the data,
+    # whatever the class and TTL say (RFC 2136 uses class ANY / NONE with TTL 0 for special purposes: not this builder's business)
+    classes = sorted(set([0, 1, 254, 255] + [int(x['def']['value']) for x in lib.consts if x['def']['type'] == 'U16' and x['path'].startswith('dns::class')]))
+    for cl in classes:
+        for ttl in (None, 0, 1):
+            for parts in ([], [b''], [b'\x01'], [b'abcd'], [b'ab', b'cd']):
+                data = b''.join(parts)
+                res, req = call_both(c, [['dns::answer', '-=' + s(b'\x01a\x00'), 'aclass=u16:%d' % cl] + (['ttl=u32:%d' % ttl] if ttl is not None else []) + ['-=' + s(p_) for p_ in parts]])
+                b = val_bytes(res[0])
+                if b is not None:
+                    f = kv(parse(c, 'rr:3', b))
+                    expect(c, 'dns::answer', f.get('data') == sh_hex(data) and f.get('class') == str(cl) and f.get('rest') == '-' and (ttl is None or f.get('ttl') == str(ttl)),
+                           'RR of class %d, ttl %s with %d data bytes: RDLENGTH / fields wrong: %s' % (cl, ttl, len(data), f), dict(req=req))
     c.count('selector-grid', 256 * len(conts) * 2 + (len(named16) + 64) * len(conts) * 2)
     c.assumptions += ['hello builders take session id / cipher list / compression as already framed byte strings; the campaign frames them with the library\'s own len_u8 / tls::ciphers']
 
